@@ -99,8 +99,18 @@ def consumer_sites(ctx, module, func):
     muts, _ = fitinfo_mutators(ctx)
     readers = [t.id for t, v, st in stores(fi.node) if isinstance(t, ast.Name) and isinstance(v, ast.Call) and is_call_to(v, 'FitInfoFile')
                and len(v.args) > 1 and const(v.args[1]) == 'r']
+    # ... or bound by a with-statement:  with FitInfoFile(..., 'r') as fin
+    for w_ in walk_local(fi.node):
+        if isinstance(w_, ast.With):
+            for it_ in w_.items:
+                v = it_.context_expr
+                if isinstance(it_.optional_vars, ast.Name) and isinstance(v, ast.Call) and is_call_to(v, 'FitInfoFile') and len(v.args) > 1 and const(v.args[1]) == 'r':
+                    readers.append(it_.optional_vars.id)
     sites = []
     loops = [n for n in walk_local(fi.node) if isinstance(n, ast.For) and isinstance(n.iter, ast.Name) and n.iter.id in readers and isinstance(n.target, ast.Name)]
+    # ... or iterated where it is made:  for info in FitInfoFile(..., 'r')
+    loops += [n for n in walk_local(fi.node) if isinstance(n, ast.For) and isinstance(n.iter, ast.Call) and is_call_to(n.iter, 'FitInfoFile') and len(n.iter.args) > 1
+              and const(n.iter.args[1]) == 'r' and isinstance(n.target, ast.Name)]
     if not loops:
         raise AnalysisError('%s: loop over FitInfoFile(..., \'r\') not found' % fi.qual)
     for lp in loops:
